@@ -52,6 +52,12 @@ def history_shards(tier, fn, all_scheds=False):
                     out.append({"fn": fn, "consts": {"ops": ops, "sched": sched, "nb": nb, "b2": 1 if k == 3 else 0,
                                                      "addr": "sym" if k == 1 else "fixed"},
                                 "timeout": 900, "twin": "first", "cover": "first"})
+    # an interval that is empty (no ballast) while it is looked up, then refilled; triple toggles of one block without lookups
+    for ops, nb, scheds in (("ra", 0, (7, 2)), ("ma", 0, (7, 2)), ("rar", 4, (1,)), ("ara", 4, (1,)), ("ozo", 4, (1,))):
+        for sched in scheds:
+            if all_scheds and sched >= (1 << len(ops)):
+                sched = sched & ((1 << len(ops)) - 1)
+            out.append({"fn": fn, "consts": {"ops": ops, "sched": sched, "nb": nb, "b2": 0, "addr": "fixed"}, "timeout": 900, "twin": False, "cover": False})
     # bursts followed by bulk growth of the collection (pending events above the size at queueing time, below it at lookup time)
     for ops in (("ozu", "oou") if tier == "quick" else ("ozu", "oou", "uoz", "zou")):
         if tier == "quick" and not all_scheds:
